@@ -787,6 +787,7 @@ def handleSpec (name : String) (ins ans : List String) : String :=
       | "c04" => optVerdict (Spec.oracleC04 bs outs)
       | "c05" => optVerdict (Spec.oracleC05 txs bs outs)
       | "c05w" => optVerdict (Spec.oracleC05Window bs outs)
+      | "c05g" => optVerdict (Spec.oracleC05Gap bs outs)
       | "c08" => optVerdict (Spec.oracleC08 bs outs)
       | _ => "bad-op"
     | _, _, _ => "FAIL unparsable scenario or answer"
